@@ -411,6 +411,14 @@ class DictSpec:
         # deleting while iterating over keys() visits every key
         op("for k in d.keys(): d.pop(k)", lambda st: [((), None)])
         op("for k in d.keys(): del d[k]", lambda st: [((), None)])
+        # one-shot iterators of duples (iter, zip, generator): the reference consumes an equal list
+        for bulk in (self.bulks()[1:3] if multi else self.bulks()[2:4]):
+            ks, vs = [k for k, _ in bulk], [v for _, v in bulk]
+            for arg in ("iter(%r)" % (bulk,), "zip(%r, %r)" % (ks, vs), "((k, v) for k, v in %r)" % (bulk,)):
+                op("d.update(%s)" % arg, m_update(list(bulk)))
+            op("d.create(iter(%r))" % (bulk,), m_create(list(bulk)))
+            op("d = %s(zip(%r, %r))" % (self.kind, ks, vs), (lambda pairs: lambda st: m_update(pairs)(()))(list(bulk)))
+        op("d |= iter(%r)" % (self.bulks()[2 if not multi else 1],), m_update(list(self.bulks()[2 if not multi else 1])))
         # python >= 3.9 operator form of update
         for bulk in self.bulks()[:3]:
             text, pairs = self.forms(bulk)[1]
@@ -758,6 +766,7 @@ def run():
         "modict: inherited odict operations (insert, sift, pickle, copy, reorder) must keep the key -> list-of-values shape; reorder may replace or append",
         "keys() / values() / items() results that are lists are snapshots: they must not change when the dict is mutated afterwards, editing them must "
         "not change the dict, and deleting every key while iterating keys() must empty the dict (a non-list view would be exempt from the first clause)",
+        "update / create / constructor / |= are also given one-shot iterators of duples (iter(list), zip, generator expression); the reference consumes an equal list",
         "order of oset & and ^ results, repr text and return values of void mutators are not compared",
         "a single operation running longer than %.1fs of CPU on a 3-key container is reported as non-terminating" % HANG,
     ]
